@@ -25,7 +25,9 @@ TECHNIQUE = 'exhaustive enumeration of finite numeric domains (all 10^6 microsec
 LEVEL_TEXT = ('The sub-second microsecond domain is finite (10^6 values) and is enumerated completely for 5 second values, through the '
               'type-level round trip and through a full TdmsWriter -> TdmsFile cycle; unit-boundary-adjacent raw fractions are '
               'enumerated for s/ms/us/ns and compared with exact rational arithmetic (fractions.Fraction); time_track is checked '
-              'over small exhaustive pools.')
+              'over small exhaustive pools (incl. start times outside datetime64[ns], lengths / increments that round badly, results '
+              'modified by the caller). Also: six datetime64 input units, naive datetimes under three process time zones, every way '
+              'of consulting the properties dictionary as first access, array-vs-scalar conversion of views in both orders.')
 LEVEL_NOTE = ('Trusted: Python integer / Fraction arithmetic and NumPy datetime64 arithmetic. "One unit" carries an allowance of 2^-20 '
               'unit for float64 rounding in the conversion. Seconds are drawn from a 5-value pool (pre-1904, 0, 1, 2020, 2200).')
 ASSUMPTIONS = ['ps resolution is outside the statement (s/ms/us/ns)']
